@@ -11,6 +11,11 @@ steps it realises and `drv_protocol` checks that they are a valid `Step` sequenc
 the observed one; (iii) for small scenarios the observed outcomes are compared with the model's
 enumerated outcome set.
 
+Bounds: threads — at most `bound` preemptions (switching away from a thread that could continue);
+asyncio — at most `bound` switches away from a sender whose chain of tasks has a ready handle; choosing
+who runs after a sender finished/blocked is free. Beyond the enumerated space, seeded random schedules
+with up to 3-4 deviations are sampled for the larger scenarios.
+
 Granularity (partial claim for the runtime): a source line is the unit of preemption and
 `Lock.acquire(blocking=False)`, `deque.append/popleft`, `Lock.release` are atomic; bytecode-level
 preemption inside a line and real GIL/loop timing are not explored.
@@ -263,7 +268,11 @@ def _run(ctx, pool, procs):
         ctx.coverage["harness_selftest"] = st
         print(f"[C06] harness self-test: {st['caught']}/{st['expected']} seeded mutants caught"
               + (f"; MISSED: {st['missed']}" if st["missed"] else ""))
+    if total.map_unavailable:
+        print(f"[C06] note: the protocol's source lines could not be identified in {total.map_unavailable} schedule(s); "
+              "for those only the Spec monitor and the outcome-set comparison were applied")
     ctx.coverage.update(
+        mapping_unavailable=total.map_unavailable,
         evaluations=total.runs,
         distinct_nontrivial=len(total.nontrivial),
         samples=total.samples[:6],
